@@ -609,7 +609,11 @@ func (g *Gen) Any(d int) string {
 			// paths whose values are of different kinds in different documents
 			`poly`, `mixed.v`, `mixed^(v).v`, `mixed^(>v)[0].v`, `$sort(mixed.v)`, `$max(mixed.v)`, `$sum(mixed.v)`,
 			`poly + 1`, `$length(poly)`, `$string(poly)`, `$type(poly)`, `mixed[v = 1]`, `$join(mixed.v)`, `poly & ""`,
-			`$number(poly)`, `mixed{$string(v): $count($)}`, `$distinct(mixed.v)`, `$reverse(mixed.v)`, `[poly][0]`)
+			`$number(poly)`, `mixed{$string(v): $count($)}`, `$distinct(mixed.v)`, `$reverse(mixed.v)`, `[poly][0]`,
+			// typed nils and pointers to scalars (typed documents only; "no value" elsewhere)
+			`opt`, `nils`, `nmap`, `nsl`, `opt.ps`, `nils[1]`, `$count(nils)`, `{"o": opt}`, `[nils]`, `$append(nils, 1)`,
+			`$sort($keys(opt))`, `$reverse(nils)`, `opt.np`, `$exists(opt.nr)`, `$append(nsl, nils)`, `$merge([opt, {"z": 1}])`,
+			`(opt ~> |$|{"z": 1}|)`, `$type(opt.np)`, `nils[0]`, `$distinct(nils)`, `$lookup(opt, "pf")`)
 	}
 }
 
